@@ -72,6 +72,18 @@ CHECKS = {
             'value. The sequence "obtain - write - look at a new instance" is what the unit tests never do.',
             'Classes that cannot be constructed without unknown arguments (19 abstract/helper classes) are skipped and counted; '
             'reflection depth 3.', '3/C12'),
+    'C14': ('I+H', 'exhaustive enumeration of scope-URI pairs from a grammar against a reference matcher plus laws; explicit-state exploration of discovery datagram histories through the real reader/handlers against a reference model',
+            'All ordered pairs over a URI grammar (3 schemes x 3 authorities x 0-2 (thorough 3) path segments over {x, X, x%2Fy, %78, '
+            'empty} x trailing slash x query; quick: every third URI as probe scope) under rfc3986, default and strcmp0 matching are '
+            'compared with a 12-line reference matcher written from the property text, plus reflexivity and query-blindness; every '
+            'type list and scope list of length <= 2 goes through matches_filter/filter_services. Histories (all pairs, and all triples '
+            'over the announcement sub-alphabet; thorough: all triples) of Hello/ProbeMatches/ResolveMatches (2 eprs, 3 metadata '
+            'versions, missing XAddrs/Types/Scopes, missing AppSequence), Bye, Probe (types/scopes/matching rule), Resolve, repeated '
+            'MessageID and local publish/clear are fed as datagrams through the real NetworkingThread._run_q_read and WSDiscovery '
+            'handlers; the remote table, the queued answers and their destination are compared with a reference model after every '
+            'event.',
+            'ldap/uuid matching rules not covered; sockets replaced by a recording stub; the reference matcher mirrors the documented '
+            'rule (raw split on "/", per-segment percent-decoding).', '3/C14'),
     'C15': ('I', 'exhaustive enumeration of all outcomes of both random draws (choice-point DFS on the real scheduling code)',
             'All 501 x 200 outcomes of the two random draws for the unicast and the multicast parameter set are executed '
             'on the real NetworkingThread.add_outbound_message/_repeated_enqueue_msg with clock and RNG owned by the '
